@@ -82,8 +82,7 @@ def true_divide(
             dtype=numpy.common_type(x1, numpy.array(1.0)),
         )
     else:
-        assert len(out) == 1
-        out_ = out[0]
+        out_ = out[0] if isinstance(out, tuple) else out
     assert isinstance(out_, numpoly.ndpoly)
     for key in x1.keys:
         out_[key] = 0
